@@ -161,6 +161,16 @@ CLAIMED["C13"] = (
     "dispatch over 12 suffixes and the CSV text of float columns for precisions 1..7 are compared inside Coq. Value round trips "
     "through real CSV/Parquet files (dtypes incl. nulls/strings/bools, angles near 0 and pi, wide positions): oracle.",
     "regenerated anchors + Coq list/Q theorems + in-Coq correspondence")
+CLAIMED["C18"] = (
+    "PARTIAL. Theorems (Coq): with the solver PcaClassifier requests (generated anchor) DaskPCA._get_solver (auto-branch tests "
+    "translated from source) returns an exact solver for every (N, F, n_components) it accepts, and accepts every 0 <= c <= "
+    "min(N,F); the library default 'auto' is refuted (N=600,F=64,c=2 -> randomized) and exact only when max(N,F) <= 500; the "
+    "flattened stack has one column chunk iff no image axis is chunked (the precondition of the tall-skinny SVD, established by the "
+    "anchored rechunk). Tie: solver decision compared with the model inside Coq over a grid of (solver, N, F, c). The headline "
+    "claim - components, singular values, projections equal to an exact SVD for every chunking, separated groups split - and the "
+    "label write-back (scripted classifier: one label per molecule in molecule order, nothing else changes) are numeric / "
+    "implementation oracles, not theorems.",
+    "regenerated anchors + Coq decision-logic theorems + in-Coq correspondence; numeric oracle for the SVD")
 NOT_YET = "machinery for this property is not built yet in this revision (see DESIGN.md §6 for the planned model)"
 
 def main():
